@@ -161,4 +161,21 @@ theorem C09_copy_marker (c : Cfg) (inp : Input) (dw : DeriveWhere) :
          whereTrailing := inp.generics.predsTrailing && dw.generics.isEmpty, methods := [] }] := by
   simp [generateImpl, generateBody]
 
+/-- Clone can never be skipped, stated on the generator: the `clone` arm of a data depends only on its shape and number
+of fields — any two datas that differ in skip markers (data-level `skip_inner`, field-level `skip`), names,
+`incomparable`, default or discriminant get the same arm under the same attribute. -/
+theorem C09_skip_blind (dw : DeriveWhere) (k : Nat) (d d' : Data) (hs : d.shape = d'.shape)
+    (hl : d.fields.length = d'.fields.length) :
+    cloneBody dw k d = cloneBody dw k d' := by
+  have h1 := map_iterFields d .clone
+    (fun i => FieldInit.mk i (.call (.traitFn .clone) [.var (.selfField k i)]))
+  have h2 := map_iterFields d' .clone
+    (fun i => FieldInit.mk i (.call (.traitFn .clone) [.var (.selfField k i)]))
+  have h3 := map_iterFields d .clone (fun i => Expr.call (.traitFn .clone) [.var (.selfField k i)])
+  have h4 := map_iterFields d' .clone (fun i => Expr.call (.traitFn .clone) [.var (.selfField k i)])
+  have r1 := relevantIdx_unskippable d .clone (Or.inl rfl)
+  have r2 := relevantIdx_unskippable d' .clone (Or.inl rfl)
+  simp only [cloneBody, ← hs]
+  simp only [h1, h2, h3, h4, r1, r2, hl]
+
 end DW
